@@ -13,7 +13,8 @@ model's funnel produces for that input; implObs = the set of distinct outcomes t
 produced over all evaluations of the case (so any order dependence is an M=DIFF *and* an S=FAIL).
 Domain (rejected otherwise): prefixes from letters, digits, `/ - _ .` and the characters of fiber's
 route syntax (`: * + ? \ < > ( ) , ;`); a prefix that is a route pattern must parse (`parseKey`) and
-its constraints must be ones the C02 model decides itself (no regex / datetime / custom); appList
+its constraints must be ones the C02 model decides itself, or one of the three regular expressions /
+the datetime layout of `abs0` (their verdict depends on letter case; no custom constraints); appList
 keys pairwise different once the leading slash is added (`slashKey`).
 Reading of pattern prefixes in the oracle: when every pattern key of the table lies in the tokens
 fragment (`TokenKey`, Fragment.lean: whole-segment `:name`, no trailing slash — the executable test
@@ -65,9 +66,41 @@ def plainByte (c : Nat) : Bool :=
   isLower c || isUpper c || isDigit c || c == 47 || c == 45 || c == 95 || c == 46
 
 def syntaxByte (c : Nat) : Bool :=
-  plainByte c || [58, 42, 43, 63, 92, 60, 62, 40, 41, 44, 59].contains c
+  plainByte c || [58, 42, 43, 63, 92, 60, 62, 40, 41, 44, 59, 94, 36, 91, 93].contains c
 
-def abs0 : C02.Constraint → Bytes → Bool := fun _ _ => true
+/-- the regular expressions the generator puts into mount prefixes (their verdict depends on letter
+case), decided here; that these three predicates are what Go's regexp says is validated by the
+correspondence run -/
+def knownRegex : List Bytes := [b "^[A-Z]+$", b "^[a-z]+$", b "^[A-Z][a-z]*$"]
+
+def twoDigits (v : Bytes) (i : Nat) : Option Nat :=
+  match v[i]?, v[i + 1]? with
+  | some x, some y => if isDigit x && isDigit y then some ((x - 48) * 10 + (y - 48)) else none
+  | _, _ => none
+
+/-- `time.Parse("2006-01-02T15", v)` succeeds -/
+def dateHourOk (v : Bytes) : Bool :=
+  v.length == 13 && v[4]? == some 45 && v[7]? == some 45 && v[10]? == some 84 &&
+  match twoDigits v 0, twoDigits v 2, twoDigits v 5, twoDigits v 8, twoDigits v 11 with
+  | some c, some y, some m, some d, some h =>
+    let year := c * 100 + y
+    let leap := year % 4 == 0 && (year % 100 != 0 || year % 400 == 0)
+    let dim := if m == 2 then (if leap then 29 else 28) else if [4, 6, 9, 11].contains m then 30 else 31
+    1 ≤ m && m ≤ 12 && 1 ≤ d && d ≤ dim && h ≤ 23
+  | _, _, _, _, _ => false
+
+/-- the abstract part of `CheckConstraint` (regex, datetime) for the constraints of the domain -/
+def abs0 : C02.Constraint → Bytes → Bool := fun c v =>
+  match c.id, c.data with
+  | .regex, [r] =>
+    if r == b "^[A-Z]+$" then !v.isEmpty && v.all isUpper
+    else if r == b "^[a-z]+$" then !v.isEmpty && v.all isLower
+    else if r == b "^[A-Z][a-z]*$" then (match v with | c0 :: t => isUpper c0 && t.all isLower | [] => false)
+    else true
+  | .datetime, [l] => if l == b "2006-01-02T15" then dateHourOk v else true
+  | _, _ => true
+
+/-- path.go CheckConstraint as getMatch calls it: on the parameter value cut from the path AS SENT -/
 def chk0 : C02.Constraint → Bytes → Bool := C02.checkConstraint [] abs0
 
 /-- a key of the modelled domain -/
@@ -77,7 +110,10 @@ def keyOk (cfg : Cfg) (k : Bytes) : Bool :=
     match parseKey cfg k with
     | none => false
     | some segs =>
-      (segs.all fun sg => sg.constraints.all fun c => c.id != .regex && c.id != .datetime && c.id != .noC) &&
+      (segs.all fun sg => sg.constraints.all fun c =>
+        c.id != .noC &&
+        (c.id != .regex || (match c.data with | [r] => knownRegex.contains r | _ => false)) &&
+        (c.id != .datetime || c.data == [b "2006-01-02T15"])) &&
       -- a key that only escapes characters (declares no parameter) must not end in a slash: fiber's
       -- RoutePatternMatch compares such a pattern literally, the mount's parser lets the slash be optional
       (segs.any (·.isParam) || (mountedAt k).getLast? != some 47))
